@@ -277,6 +277,11 @@ fn policy_alphabet(cfg: &Config) -> Vec<Macro> {
         if slots > 0 {
             out.push(Macro::Take { n: 1, order: 0, class, local: None });
         }
+        if slots > 1 {
+            // the last slot of the class (slot indices beyond other classes' slot counts)
+            out.push(Macro::Take { n: 1, order: 0, class, local: Some(slots - 1) });
+            out.push(Macro::Take { n: 1, order: llfree::HUGE_ORDER, class, local: Some(slots - 1) });
+        }
         out.push(Macro::Exhaust { order: llfree::HUGE_ORDER, class, local });
     }
     let c0 = first_class.unwrap_or(0);
@@ -291,6 +296,9 @@ pub fn policy_configs(thorough: bool) -> Vec<Config> {
         ClassingSpec::zeroed([1, 1, 1], 1),
         ClassingSpec::zeroed([1, 1, 1], 2),
         ClassingSpec::movable(1),
+        // unequal slot counts (slot indices of one class exceed another class's count)
+        ClassingSpec::custom("uneven[(0,3),(1,1)]", &[(0, 3), (1, 1)], 1, PolicyKind::Simple),
+        ClassingSpec::zeroed([3, 1, 2], 1),
     ];
     if thorough {
         specs.push(ClassingSpec::zeroed([2, 1, 1], 0));
@@ -415,11 +423,19 @@ pub struct MacroParams {
     pub max_secs: f64,
 }
 
-fn macro_explore(cfg: &Config, p: &MacroParams, col: &mut Collector) -> MacroStats {
+fn alphabet_for(cfg: &Config, p: &MacroParams) -> Vec<Macro> {
+    if p.policy_alphabet { policy_alphabet(cfg) } else { macro_alphabet(cfg, p.rich) }
+}
+
+/// Explore the subtree below the first macro operation `first` of one configuration:
+/// iterative deepening (depth limit 1, 2, .. p.depth, so that under a wall-clock cap the
+/// shallower levels are complete), depth-first with explicit marks (restore in place),
+/// state dedup per iteration.
+fn macro_explore(cfg: &Config, p: &MacroParams, first: usize, col: &mut Collector) -> MacroStats {
     let t0 = Instant::now();
-    let mut st = MacroStats { configs: 1, depth: p.depth, ..Default::default() };
+    let mut st = MacroStats { depth: p.depth, ..Default::default() };
     let Some(mut r) = Runner::new(cfg) else { return st };
-    let alphabet = if p.policy_alphabet { policy_alphabet(cfg) } else { macro_alphabet(cfg, p.rich) };
+    let alphabet = alphabet_for(cfg, p);
     let seq_params = SeqParams {
         prop: p.prop.clone(),
         profile: crate::model::Profile::small(),
@@ -429,74 +445,94 @@ fn macro_explore(cfg: &Config, p: &MacroParams, col: &mut Collector) -> MacroSta
         max_secs: 0.0,
     };
     let mut seq_stats = SeqStats::default();
-    let mut visited: HashSet<u128> = HashSet::new();
-    visited.insert(state_key(&r.sut.bufs.snapshot(), &r.model));
-    // depth-first with explicit marks (restore in place)
     struct Frame {
         mark: Mark,
         next: usize,
     }
-    let mut stack = vec![Frame { mark: r.mark(), next: 0 }];
-    let mut names: Vec<String> = vec![];
-    while let Some(top) = stack.last_mut() {
-        if t0.elapsed().as_secs_f64() > p.max_secs {
-            st.capped = 1;
-            break;
-        }
-        if top.next >= alphabet.len() {
-            stack.pop();
-            names.pop();
-            continue;
-        }
-        let m = alphabet[top.next].clone();
-        top.next += 1;
-        let mark_ops = top.mark.ops;
-        r.reset(&top.mark);
-        let depth = stack.len();
-        let ok = r.apply_macro(&m, col);
-        st.sequences += 1;
-        st.max_history_calls = st.max_history_calls.max(r.ops.len() as u64);
-        if !ok || r.ops.len() == mark_ops {
-            continue; // panicked (reported) or the macro was empty in this state
-        }
-        // complete state oracle + probes of the hosting property
-        let mut viol = vec![];
-        oracle::state(&r.model, &r.sut, true, &mut viol);
-        let blocked = viol.iter().any(|v| v.prop == p.prop || v.prop == "C02" || v.prop == "C01");
-        let bytes = r.sut.bufs.snapshot();
-        let key = state_key(&bytes, &r.model);
-        let new = visited.insert(key);
-        if new && !blocked {
-            st.states += 1;
-            let state = State { bytes, model: r.model.clone(), path: r.ops.clone() };
-            crate::probes::on_state(&state, cfg, &r.sut, &seq_params, &mut seq_stats, &mut viol);
-            r.sut.bufs.restore(&state.bytes);
-        }
-        if !viol.is_empty() {
-            let mut v2 = vec![];
-            for mut v in viol {
-                v.detail = format!("after macro history [{} ; {}]: {}", names.join(" ; "), m.short(), v.detail);
-                v2.push(v);
+    let root = r.mark();
+    // states whose oracles and probes already ran (across iterations)
+    let mut judged: HashSet<u128> = HashSet::new();
+    'deepening: for limit in 1..=p.depth {
+        let mut visited: HashSet<u128> = HashSet::new();
+        r.reset(&root);
+        let mut stack = vec![Frame { mark: r.mark(), next: first }];
+        let mut names: Vec<String> = vec![];
+        loop {
+            let depth = stack.len();
+            let Some(top) = stack.last_mut() else { break };
+            if t0.elapsed().as_secs_f64() > p.max_secs {
+                st.capped = 1;
+                break 'deepening;
             }
-            r.report(v2, col);
-        }
-        if new && !blocked && depth < p.depth {
-            names.push(m.short());
-            stack.push(Frame { mark: r.mark(), next: 0 });
+            // the root frame only runs the job's first macro
+            if top.next >= alphabet.len() || (depth == 1 && top.next > first) {
+                stack.pop();
+                names.pop();
+                continue;
+            }
+            let m = alphabet[top.next].clone();
+            top.next += 1;
+            let mark_ops = top.mark.ops;
+            r.reset(&top.mark);
+            let ok = r.apply_macro(&m, col);
+            if depth == limit {
+                st.sequences += 1;
+            }
+            st.max_history_calls = st.max_history_calls.max(r.ops.len() as u64);
+            if !ok || r.ops.len() == mark_ops {
+                continue; // panicked (reported) or the macro was empty in this state
+            }
+            let bytes = r.sut.bufs.snapshot();
+            let key = state_key(&bytes, &r.model);
+            let new = visited.insert(key);
+            let mut blocked = false;
+            if judged.insert(key) {
+                // complete state oracle + probes of the hosting property
+                let mut viol = vec![];
+                oracle::state(&r.model, &r.sut, true, &mut viol);
+                blocked = viol.iter().any(|v| v.prop == p.prop || v.prop == "C02" || v.prop == "C01");
+                if !blocked {
+                    st.states += 1;
+                    let state = State { bytes, model: r.model.clone(), path: r.ops.clone() };
+                    crate::probes::on_state(&state, cfg, &r.sut, &seq_params, &mut seq_stats, &mut viol);
+                    r.sut.bufs.restore(&state.bytes);
+                }
+                if !viol.is_empty() {
+                    let mut v2 = vec![];
+                    for mut v in viol {
+                        v.detail = format!("after macro history [{} ; {}]: {}", names.join(" ; "), m.short(), v.detail);
+                        v2.push(v);
+                    }
+                    r.report(v2, col);
+                }
+            }
+            if new && !blocked && depth < limit {
+                names.push(m.short());
+                stack.push(Frame { mark: r.mark(), next: 0 });
+            }
         }
     }
     st.calls = r.calls;
     st
 }
 
-/// Run the macro search over several configurations on all cores
+/// Run the macro search over several configurations on all cores: one job per
+/// (configuration, first macro operation)
 pub fn macro_all(cfgs: &[Config], p: &MacroParams) -> (MacroStats, Collector) {
     let total = std::sync::Mutex::new((MacroStats::default(), Collector::default()));
-    crate::dom::par_for(cfgs.len(), |i| {
+    let mut jobs: Vec<(usize, usize)> = vec![];
+    for (ci, cfg) in cfgs.iter().enumerate() {
+        for first in 0..alphabet_for(cfg, p).len() {
+            jobs.push((ci, first));
+        }
+    }
+    // largest configurations first (their jobs take longest)
+    jobs.sort_by_key(|&(ci, _)| std::cmp::Reverse(cfgs[ci].frames));
+    crate::dom::par_for(jobs.len(), |i| {
+        let (ci, first) = jobs[i];
         let mut col = Collector::default();
-        let s = macro_explore(&cfgs[i], p, &mut col);
+        let s = macro_explore(&cfgs[ci], p, first, &mut col);
         let mut t = total.lock().unwrap();
-        t.0.configs += s.configs;
         t.0.sequences += s.sequences;
         t.0.states += s.states;
         t.0.calls += s.calls;
@@ -505,7 +541,9 @@ pub fn macro_all(cfgs: &[Config], p: &MacroParams) -> (MacroStats, Collector) {
         t.0.depth = s.depth;
         t.1.merge(col);
     });
-    total.into_inner().unwrap()
+    let mut t = total.into_inner().unwrap();
+    t.0.configs = cfgs.len() as u64;
+    t
 }
 
 pub fn macro_configs(large: bool) -> Vec<Config> {
@@ -546,7 +584,7 @@ pub fn macro_configs(large: bool) -> Vec<Config> {
 pub fn macro_coverage(st: &MacroStats) -> serde_json::Value {
     json!({"macro_engine": "MACRO: depth-first search over macro operations (allocate until OOM, take n, free all / every other / one tree, drain, offline/online) with in-place restore and state dedup; every basic call judged by the reference model, complete state oracle and the probes of the hosting property after every macro operation",
         "macro_configs": st.configs, "macro_sequences": st.sequences, "macro_states": st.states,
-        "macro_basic_calls": st.calls, "macro_depth": st.depth, "macro_configs_capped": st.capped,
+        "macro_basic_calls": st.calls, "macro_depth": st.depth, "macro_jobs_capped (one job = configuration x first macro operation; iterative deepening, so a capped job completed the shallower depths)": st.capped,
         "macro_longest_history_calls": st.max_history_calls})
 }
 
